@@ -46,6 +46,10 @@ def own_class_ok(case, res, J, N):
 
 
 def run(ctx: C.Ctx):
+    c05.with_translated_masks(ctx, lambda: _run(ctx))
+
+
+def _run(ctx: C.Ctx):
     rng = ctx.rng
     from pysensors.optimizers import CCQR, QR
     todo = []
